@@ -1115,7 +1115,7 @@ func TestCheck(t *testing.T) {
 	logrus.SetOutput(io.Discard)
 	r := mon.Start(t, "C05")
 	defer r.Finish()
-	r.Rule("cases: batches of 1-3 datagrams of 1-40 lines drawn from: valid lines of a small name/tag pool (so series collide; names needing in-place normalisation, host: tags in every position, rates, all five type letters), grammar derivations of metrics and events, events, empty lines, fixed invalid lines, single-point mutations, random bytes (some with NUL), all-junk names; with and without trailing newline; 6 parser configurations (namespace x ignore-host x estimated tags); one case in five repeats one gauge 2-4 times (same name after normalisation, same tag set in any order) with other lines in between. The batch goes through parser A in recycled 64 KiB buffers overwritten with 0xAA when released; each line goes alone through an identically configured parser B in a private buffer; A must equal the reference fold of B's results in line order (series, values, tags, source, timestamp, events in order), counters of both parsers must equal the number of lines giving a metric / an event / nothing; built lines are also compared with their parser-independent expectation; everything dispatched for the previous case is re-read after its buffers were reused. Stress: 4 parsers on one channel, 3 producers, one buffer pool, per-datagram unique names, union of all maps / events / counters against the independent expectation. Receiver variant: the real DatagramReceiver (1-4 readers, batch size 1-50, its own buffer pool and DoneFunc) on a scripted PacketConn or a loopback UDP socket feeds 1-4 Run goroutines of one real parser; datagrams of 1 line to 65000 bytes in bursts, every line with a unique id; after a barrier passed by every parser goroutine the union of everything dispatched must be exactly what was sent, the parser / receiver counters exact, and every timestamp must lie between the clock reading taken immediately before its datagram was offered to the socket and the reading taken when its map reached the handler (one datagram in ten follows a 3 ms idle gap with every reader parked in a read). Back-pressure scenarios: the handler stalls in DispatchMetricMap, 1-4 further datagrams are read and held by the readers, and once receiver.datagrams_received as reported to the spy Statser includes them a clock reading bounds their timestamps from above (the receiver stamps before it counts), however long they then wait for the parser. Non-trivial: a datagram in which lines of different classes (metric, normalised metric, event, rejected, empty) are adjacent, or a gauge set more than once; distinct by (adjacent class pair, ignore-host, namespace, trailing newline, batch size), (gauge repeat count, separated, tag variants, ignore-host), stress configuration, and receiver setup (socket kind, readers, batch size, parser goroutines, channel capacity, configuration).")
+	r.Rule("cases: batches of 1-3 datagrams of 1-40 lines drawn from: valid lines of a small name/tag pool (so series collide; names needing in-place normalisation, host: tags in every position, rates, all five type letters), grammar derivations of metrics and events, events, empty lines, fixed invalid lines, single-point mutations, random bytes (some with NUL), all-junk names; with and without trailing newline; 6 parser configurations (namespace x ignore-host x estimated tags); one case in five repeats one gauge 2-4 times (same name after normalisation, same tag set in any order) with other lines in between. The batch goes through parser A in recycled 64 KiB buffers overwritten with 0xAA when released; each line goes alone through an identically configured parser B in a private buffer; A must equal the reference fold of B's results in line order (series, values, tags, source, timestamp, events in order), counters of both parsers must equal the number of lines giving a metric / an event / nothing; built lines are also compared with their parser-independent expectation; everything dispatched for the previous case is re-read after its buffers were reused. Stress: 4 parsers on one channel, 3 producers, one buffer pool, per-datagram unique names, union of all maps / events / counters against the independent expectation. Receiver variant: the real DatagramReceiver (1-4 readers, batch size 1-50, its own buffer pool and DoneFunc) on a scripted PacketConn or a loopback UDP socket feeds 1-4 Run goroutines of one real parser; datagrams of 1 line to 65000 bytes in bursts, every line with a unique id; after a barrier passed by every parser goroutine the union of everything dispatched must be exactly what was sent, the parser / receiver counters exact, and every timestamp must lie between the clock reading taken immediately before its datagram was offered to the socket and the reading taken when its map reached the handler (one datagram in ten follows a 3 ms idle gap with every reader parked in a read). Back-pressure scenarios: the handler stalls in DispatchMetricMap, 1-4 further datagrams are read and held by the readers, and once receiver.datagrams_received as reported to the spy Statser includes them a clock reading bounds their timestamps from above (the receiver stamps before it counts), however long they then wait for the parser. Server variant: configuration text (flag / GSD_ environment / toml, keys independent) -> real cmd/gostatsd binary (constructed server) -> real statsd.Server with the configured 1-4 parser goroutines and the internal statser -> uniquely named lines; at the backend the ignore-host clause must hold by the meaning of the text and parser.bad_lines_seen must become the number of rejected lines sent. Non-trivial: a datagram in which lines of different classes (metric, normalised metric, event, rejected, empty) are adjacent, or a gauge set more than once; distinct by (adjacent class pair, ignore-host, namespace, trailing newline, batch size), (gauge repeat count, separated, tag variants, ignore-host), stress configuration, and receiver setup (socket kind, readers, batch size, parser goroutines, channel capacity, configuration), and server invocation (how built, ignore-host, flush-aligned, namespace, parsers).")
 	r.Assume("an empty line between two newlines is a rejected line (current tree); a final empty segment is not a line")
 	r.Assume("with ignore-host and no host: tag the source stays empty (current tree; the statement is silent)")
 	r.Assume("the unbuffered input channel makes 'the batch before the fence is completely processed' observable")
